@@ -132,10 +132,10 @@ applications attach no previous-node block and relayed bundles satisfy `seedsPre
 of this node; binary spray: carries the BinarySprayBlock — the excluded class is the known finding,
 `binary_no_block_witness`) — no algorithm-chosen transmission goes to the node named in the bundle's
 previous-node block. -/
-theorem never_to_prev_node (c : Cfg) (hfix : c.holdFix = true) (hexp : c.expiryNow = true) (env : Env) (now : Nat)
+theorem never_to_prev_node (c : Cfg) (env : Env) (now : Nat)
     (h : List Event) (hdom : Domain13 c h) :
     firstFail (fun c _ o => returnFail c o) c (SpecSt.init now) 0 ((trace env (init c now) h).map obsOf) = none :=
-  prev_run c hfix hexp env h [] _ _ 0 (by simpa using hdom) (rinv_init c now) (prevInv_init c now)
+  prev_run c env h [] _ _ 0 (by simpa using hdom) (rinv_init c now) (prevInv_init c now)
 
 /-- **`never_twice`**: for every routing algorithm (and the sensor-mule wrapper), every environment, every
 number of peers and every history of `Domain13t` (`Domain13` plus "the tag names the concrete bundle"): no
@@ -144,10 +144,10 @@ the algorithm's choice while the node holds the bundle (`okSent` forgets a bundl
 and when an application submits it anew). The invariant: every remembered success is in the bundle's
 sent list (`DInv`), together with the provenance of the stored bundles and "every stored item has a
 retention constraint". -/
-theorem never_twice (c : Cfg) (hfix : c.holdFix = true) (hexp : c.expiryNow = true) (env : Env) (now : Nat)
+theorem never_twice (c : Cfg) (hfix : c.holdFix = true) (env : Env) (now : Nat)
     (h : List Event) (hdom : Domain13t c h) :
     firstFail dupFail c (SpecSt.init now) 0 ((trace env (init c now) h).map obsOf) = none :=
-  dup_run c hfix hexp env h [] _ _ 0 (by simpa using hdom) (rinv_init c now) (dinv_init c now)
+  dup_run c hfix env h [] _ _ 0 (by simpa using hdom) (rinv_init c now) (dinv_init c now)
 
 /-- **`never_twice`, the inductive step** (every algorithm, any peers): let `E` be any set of endpoint IDs
 that are booked for the bundle (in its sent list) and are not its destination's node — e.g. the peers that
